@@ -61,6 +61,22 @@ class Contract:
             raise SyntaxError(f"contract clause {src!r}: {e}")
 
 
+def _mentions(term, names):
+    import z3
+    stack = [term]
+    seen = set()
+    while stack:
+        x = stack.pop()
+        i = x.get_id()
+        if i in seen:
+            continue
+        seen.add(i)
+        if z3.is_const(x) and x.decl().kind() == z3.Z3_OP_UNINTERPRETED and x.decl().name() in names:
+            return True
+        stack.extend(x.children())
+    return False
+
+
 class Registry:
     def __init__(self):
         self.contracts: dict[str, Contract] = {}
@@ -134,6 +150,60 @@ class Registry:
         self.ufunc_native = getattr(self, "ufunc_native", {})
         if native is not None:
             self.ufunc_native[name] = native
+
+    def defn(self, sig, body, shapes, returns="bool"):
+        """ghost function with a definition: M(args) is an uninterpreted application whose
+        defining equation  M(args) == body(args)  is added to the path condition for every
+        GROUND application (ground instantiation at use sites).  Under a quantifier the
+        application stays opaque, which keeps strings out of quantified formulas."""
+        import z3
+        from .values import parse_shape, leaf_sorts, unflatten, flatten, VBuiltin, VOpt
+        name = sig.split("(")[0].strip()
+        params = [p.strip() for p in sig[sig.index("(") + 1: sig.rindex(")")].split(",")]
+        pshapes = [parse_shape(shapes[p], self.models) for p in params]
+        ret = parse_shape(returns, self.models)
+        dom = []
+        for sh in pshapes:
+            if isinstance(sh, tuple) and sh[0] == "list":
+                from .values import IntS
+                dom += [z3.ArraySort(IntS, ls) for ls in leaf_sorts(sh[1])] + [IntS]
+            else:
+                dom += leaf_sorts(sh)
+        fns = [z3.Function(f"ghost_{name}_{i}", *(dom + [rs])) for i, rs in enumerate(leaf_sorts(ret))]
+        body_node = ast.parse(f"lambda {', '.join(params)}: ({body})", mode="eval").body
+        body_fn = VFunc(body_node, None, None, name + "!def")
+
+        def impl(interp, a, k, n):
+            from .lib import coerce
+            from .ops import eq as veq
+            leaves = []
+            vals = []
+            for v, sh in zip(a, pshapes):
+                if isinstance(v, VOpt) and not (isinstance(sh, tuple) and sh[0] == "opt"):
+                    v = v.val if interp.spec else interp.need(v)
+                vals.append(v)
+                if isinstance(sh, tuple) and sh[0] == "list":
+                    if v.concrete:
+                        from .lib import to_symbolic
+                        v = to_symbolic(interp, v, sh[1])
+                    leaves += list(v.arrs) + [v.length]
+                else:
+                    leaves += flatten(coerce(interp, v, sh), sh)
+            outs = [f(*leaves) for f in fns]
+            res = unflatten(ret, list(outs))
+            bound = getattr(interp, "bound_names", None) or set()
+            ground = not bound or not any(_mentions(l, bound) for l in leaves)
+            if ground:
+                seen = interp.ctx.__dict__.setdefault("_defn_seen", set())
+                key = (name, tuple(l.get_id() for l in leaves))
+                if key not in seen:
+                    seen.add(key)
+                    sp = interp if interp.spec else interp.sub(True)
+                    val = sp.call(body_fn, vals, {}, n)
+                    interp.ctx.assume(veq(res, val), f"ghost-def:{name}")
+            return res
+        self.spec_names[name] = VBuiltin("defn:" + name, impl)
+        self.spec_src[name] = (sig, body)
 
     def table(self, prop, name):
         def deco(fn):
